@@ -128,6 +128,11 @@ func (s *Stream) ExecuteFlow(
 			if shortCircuitNode, err = s.ExecuteFlow(flow, apiStream, targetNode, actions); err != nil {
 				return shortCircuitNode, fmt.Errorf("failed to execute flow: %w", err)
 			}
+			if shortCircuitNode != nil {
+				// A processor on this branch answered the request: the rest of the request
+				// path is skipped, the response walk continues from that processor.
+				return shortCircuitNode, nil
+			}
 		}
 	}
 	return shortCircuitNode, nil
